@@ -175,6 +175,18 @@ def run_case(case, ctx):
     if (len(vals) + p + pe) % 3 == 0:
         extra = [EarlyStopping(1, 0.0, 1, ev, name, criterion="absolute")]
         ctx.count("runs_with_a_second_unsatisfiable_stopper")
+    # user code between the evaluator and the stopper that edits the dict handed out as `last` (rounding it for display,
+    # say): the stopper decides on the recorded evaluations, which such an edit must not rewrite
+    if case["ev"] == "metric" and (L + p) % 2 == 1:
+        from qucumber.callbacks import LambdaCallback
+
+        def _tamper(s_, e_):
+            last_ = getattr(ev, "last", None)
+            if isinstance(last_, dict):
+                for k_ in list(last_):
+                    last_[k_] = 123.0
+        extra = [LambdaCallback(on_epoch_end=_tamper)] + extra
+        ctx.count("runs_with_last_dict_edited_by_user_code")
     log = trainrec.Log()
     rec = trainrec.recorder_callback(log, digest_params=False)
     # ---- reference decision procedure, step by step (so that an unspecified 0/0 can follow the library)
